@@ -148,7 +148,8 @@ impl Module for Scripted {
         // further ones are appended by the module itself
         let pe = |i: usize| Pe { m: self.name.clone(), i, _life: Life::new(1) };
         match self.stack {
-            0 | 1 => {}
+            0 => return ProcessingStack::default(),
+            1 => {}
             2 => stack.append(pe(1)),
             // a stack larger than the default one, appended in a single call
             3 => stack.append((pe(1), pe(2))),
@@ -303,18 +304,11 @@ pub fn run_scenario_stop(cfg: &NetCfg, scripts: &Value, seed: u64, stop: &str) -
         let mut sim = Sim::new(());
         let any_stack = cfg.mods.iter().any(|m| cfg.stack[m].as_u64().unwrap_or(0) > 0);
         if any_stack {
-            // modules with a stack of 0 elements must not get the default element: they are created before set_stack
-            for m in cfg.mods.iter().filter(|m| cfg.stack[*m].as_u64().unwrap_or(0) == 0) {
-                add_module(&mut sim, cfg, scripts, m);
-            }
             sim.set_stack(|| Pe0 { _life: Life::new(1) });
-            for m in cfg.mods.iter().filter(|m| cfg.stack[*m].as_u64().unwrap_or(0) > 0) {
-                add_module(&mut sim, cfg, scripts, m);
-            }
-        } else {
-            for m in &cfg.mods {
-                add_module(&mut sim, cfg, scripts, m);
-            }
+        }
+        // modules are created in tree order; a module with an empty stack discards the default element
+        for m in &cfg.mods {
+            add_module(&mut sim, cfg, scripts, m);
         }
         // topology
         let ao = sim.gate("a", "out");
